@@ -457,7 +457,8 @@ def _groupby_max(ctx, f):
               "score (ascending + keep='last', or descending + 'first')",
               f"ascending={show(asc)}, keep={show(keep)} keeps the "
               "minimum of each group", node=rets[0][0])
-    dd = chain[2][1]
+    dd = chain[2][1] or tuple(
+        x for x in (chain[2][2].get("subset"),) if x is not None)
     def as_sequence(t):
         """list(list(x)) / tuple(x) / [*x]: the same column names in the
         same order as x"""
